@@ -264,3 +264,18 @@ func originVariants() []string {
 		"http://" + testHost + "@evil.example", "http://evil.example#" + testHost, "file://",
 	}
 }
+
+// devNearMissOrigins: Origins that are close to the two documented development-mode
+// names (localhost, 127.0.0.1) without being them, plus the exact names with ports.
+func devNearMissOrigins() []string {
+	var out []string
+	for _, n := range []string{"localhost", "127.0.0.1"} {
+		for _, scheme := range []string{"http://", "https://"} {
+			out = append(out, scheme+n, scheme+n+":8443", // the documented exception itself
+				scheme+n+".attacker.example", scheme+n+".attacker.example:8443", scheme+n+"ess", scheme+n+"0", scheme+n+"-evil:80",
+				scheme+"x"+n, scheme+"evil-"+n+":4200", scheme+"sub."+n, scheme+"sub."+n+":817", scheme+n+"."+n, scheme+n+"@evil.example")
+		}
+	}
+	out = append(out, "http://127.0.0.10", "http://127.0.0.11:8080", "http://0127.0.0.1", "http://127.0.0.1.nip.io", "http://localhost.localdomain", "http://LOCALHOST", "http://localhosT:80")
+	return out
+}
